@@ -790,6 +790,7 @@ var c20Names = []string{"Alice", "Alice B", "A=B", "a=b=c", "[bot]", "#1 dev", "
 var c20Emails = []string{"a@example.com", "first.last@sub.example.org", "x_y+tag@a-b.co", "u@d.io"}
 
 func runC20(c *core.Ctx) {
+	RunIn(c, "", 8, 2048)
 	n := c.Pick(500, 4000)
 	c.RunHistories(n, Registry["C20"].Mons, func(w *core.World) {
 		k := NewWalker(w, gen.NameOpts{MaxDepth: 1, N: 3}, nil)
@@ -863,21 +864,21 @@ func runC20(c *core.Ctx) {
 
 func init() {
 	register(&Prop{ID: "C10", Level: "exploration",
-		Rule: "(a) breadth-first exploration of the REAL binary as an explicit state space from {fresh repo, one commit on main}: every action over the name alphabet {main,a,ab,b,a.b,a-b} (branch n / -d n / -r n, switch n, switch -c n, update-ref refs/heads/n c for up to 3 commits, macro commit, macro reset --soft HEAD@{1}, branch --list, rev-parse HEAD) applied to every distinct abstract state reached, restoring the concrete sandbox snapshot first; depth 2 (quick) / 4 or 160k transitions (thorough); (b) seeded random walks of 40-60 steps over 16 branch names; oracle: a reference state machine gives accept-with-effect or refuse-without-change for each (state, action), views branch --list / rev-parse must report the stored state; distinct = (action, refuse?, abstract state) triples",
-		Mons:  func() []core.Monitor { return []core.Monitor{C10Mon{}} },
-		Run:   runC10,
+		Rule:   "(a) breadth-first exploration of the REAL binary as an explicit state space from {fresh repo, one commit on main}: every action over the name alphabet {main,a,ab,b,a.b,a-b} (branch n / -d n / -r n, switch n, switch -c n, update-ref refs/heads/n c for up to 3 commits, macro commit, macro reset --soft HEAD@{1}, branch --list, rev-parse HEAD) applied to every distinct abstract state reached, restoring the concrete sandbox snapshot first; depth 2 (quick) / 4 or 160k transitions (thorough); (b) seeded random walks of 40-60 steps over 16 branch names; oracle: a reference state machine gives accept-with-effect or refuse-without-change for each (state, action), views branch --list / rev-parse must report the stored state; distinct = (action, refuse?, abstract state) triples",
+		Mons:   func() []core.Monitor { return []core.Monitor{C10Mon{}} },
+		Run:    runC10,
 		Floors: []core.Floor{{Key: "C10.transition", Min: 800}, {Key: "C10.refusal-frame", Min: 400}, {Key: "C10.list-view", Min: 30}, {Key: "C10.revparse-view", Min: 30}},
 	})
 	register(&Prop{ID: "C14", Level: "exploration",
-		Rule: "seeded histories of length 1-12 (quick) / 1-50 (thorough) on 1-3 branches with resets to earlier commits followed by new commits; `log -n k` for k in {0,1,len-1,len,len+1,5,100} and without -n; the chain is recomputed by following parents with the independent commit decoder; blocks must be the first min(k,len) commits, each once, with their own id/author/message; metamorphic: after staging/unstaging, editing, creating/moving/deleting other branches the same command prints the same text; distinct = (len, k-relation, #branches)",
-		Mons:  func() []core.Monitor { return []core.Monitor{C14Mon{}} },
-		Run:   runC14,
+		Rule:   "seeded histories of length 1-12 (quick) / 1-50 (thorough) on 1-3 branches with resets to earlier commits followed by new commits; `log -n k` for k in {0,1,len-1,len,len+1,5,100} and without -n; the chain is recomputed by following parents with the independent commit decoder; blocks must be the first min(k,len) commits, each once, with their own id/author/message; metamorphic: after staging/unstaging, editing, creating/moving/deleting other branches the same command prints the same text; distinct = (len, k-relation, #branches)",
+		Mons:   func() []core.Monitor { return []core.Monitor{C14Mon{}} },
+		Run:    runC14,
 		Floors: []core.Floor{{Key: "C14.count", Min: 300}, {Key: "C14.independence", Min: 100}},
 	})
-	register(&Prop{ID: "C20", Level: "exploration",
-		Rule: "seeded sequences of 1-25 local/global `config s.k v` writes over 4 sections x 5 keys with values containing '=', 'a=b=c', '[', ']', '#', quotes, non-ASCII, inner spaces, punctuation; a random plan decides which of (local name, global name, local e-mail, global e-mail) get configured; after every write both config files are parsed independently and compared with the model maps (no other key or section lost or altered); every commit attempt is checked for refusal-without-side-effects (identity incomplete) or for the effective identity (local over global per key) in the stored author/committer lines; distinct = (scope, value class) and (name/e-mail presence pattern) classes",
-		Mons:  func() []core.Monitor { return []core.Monitor{C20Mon{}} },
-		Run:   runC20,
+	register(&Prop{ID: "C20", Level: "exploration", NeedIn: true,
+		Rule:   "seeded sequences of 1-25 local/global `config s.k v` writes over 4 sections x 5 keys with values containing '=', 'a=b=c', '[', ']', '#', quotes, non-ASCII, inner spaces, punctuation; a random plan decides which of (local name, global name, local e-mail, global e-mail) get configured; after every write both config files are parsed independently and compared with the model maps (no other key or section lost or altered); in-process: sequences of Config.Add/Write through the real writer are re-read by a fresh NewConfig and compared with the model (effective name/e-mail, IsUserSet); every commit attempt is checked for refusal-without-side-effects (identity incomplete) or for the effective identity (local over global per key) in the stored author/committer lines; distinct = (scope, value class) and (name/e-mail presence pattern) classes",
+		Mons:   func() []core.Monitor { return []core.Monitor{C20Mon{}} },
+		Run:    runC20,
 		Floors: []core.Floor{{Key: "C20.file-roundtrip", Min: 800}, {Key: "C20.commit-refusal", Min: 100}, {Key: "C20.effective-identity", Min: 100}},
 	})
 }
